@@ -595,6 +595,15 @@ class Fuzz:
                         f'/stream/{sid}/{mfid}', f'/dash/vod/fz{ctx.shard}/{name}/1.mp4', f'/dash/vod/fz{ctx.shard}/{name}/init.mp4',
                         f'/stream/{sid}/{mfid}/segment/1', f'/dash/vod/fz{ctx.shard}/hand_made.mpd?drm=all'):
                 self.request('GET', url, 'b', f'after upload of legal variant {vname}', rp, client=media.client)
+            # editing a media file stores its new content under a generated name (<name>_01.mp4);
+            # a later upload may carry exactly that file name
+            from dlv.mgmt import op_edit_media
+            r = self._guarded(lambda: execute(media, h2, op_edit_media(sid, mfid, 9, 'eng')), 'edit-media', rp)
+            if r is not None and r.status_code < 400:
+                res.count('b.upload_after_edit')
+                self._guarded(lambda: execute(media, h2, op_upload(sid, f'{name}_01.mp4', data)), 'upload-of-generated-name', rp)
+                self.request('GET', f'/dash/vod/fz{ctx.shard}/{name}/1.mp4', 'b', f'after upload of {name}_01.mp4', rp,
+                             client=media.client)
             if ctx.out_of_time():
                 break
 
